@@ -68,24 +68,27 @@ def _cases(draw, tier):
     return {"params": p, "seq": seq, "unit": unit}
 
 
-def _series(p):
+def _series(p, node_ids=None):
     q = dict(p)
     if isinstance(q.get("G"), list):
-        q["G"] = pd.Series(q["G"], index=pd.Index(range(len(q["G"])), name="node_id"), dtype=np.float64)
+        ids = list(range(len(q["G"]))) if node_ids is None else list(node_ids)
+        q["G"] = pd.Series(q["G"], index=pd.Index(ids, name="node_id"), dtype=np.float64)
     else:
         q["G"] = float(q["G"])
     return pd.Series(q)
 
 
-def assess(p, loads, multi=None):
-    """loads: list (single point) or list of lists per point (multi)."""
+def assess(p, loads, multi=None, node_ids=None):
+    """loads: list (single point) or list of lists per point (multi); node_ids: labels of the points in row order
+    (default 0..n-1) - labels only, the position of a point in the batch is its position in every load step."""
     if multi is None:
         ls = pd.Series(np.asarray(loads, dtype=np.float64))
     else:
         n = len(multi)
-        idx = pd.MultiIndex.from_product([range(len(multi[0])), range(n)], names=["load_step", "node_id"])
+        ids = list(range(n)) if node_ids is None else list(node_ids)
+        idx = pd.MultiIndex.from_product([range(len(multi[0])), ids], names=["load_step", "node_id"])
         ls = pd.Series([multi[j][i] for i in range(len(multi[0])) for j in range(n)], index=idx, dtype=np.float64)
-    return ANS.perform_fkm_nonlinear_assessment(_series(p), ls, calculate_P_RAM=True, calculate_P_RAJ=True)
+    return ANS.perform_fkm_nonlinear_assessment(_series(p, node_ids), ls, calculate_P_RAM=True, calculate_P_RAJ=True)
 
 
 def _val(x, j=None):
@@ -222,6 +225,13 @@ def _batch_cases(draw, tier):
     if draw(st.booleans()):
         # small gradients (n_bm clipped to 1) and large ones (n_bm > 1 and different from point to point)
         case["params"]["G"] = [draw(st.sampled_from([2 / 15, 0.01, 1.0, 0.3, 5.0, 12.0, 30.0])) for _ in range(n)]
+    # node ids are labels: 0..n-1, an ascending selection with gaps, or the same ids in the order an unsorted node set gives
+    layout = draw(st.sampled_from(["range", "range", "gaps", "unsorted"]))
+    ids = sorted(draw(st.lists(st.integers(1, 5000), min_size=n, max_size=n, unique=True)))
+    if layout == "unsorted":
+        ids = list(draw(st.permutations(ids)))
+    case["node_ids"] = None if layout == "range" else ids
+    case["id_layout"] = layout
     return case
 
 
@@ -274,8 +284,17 @@ def batch_independence(case, ctx):
         ctx.skip("a load or range of the sequence sits on a class edge (class would depend on rounding of the load ratio)")
     base = [x * unit for x in seq]
     multi = [[f * x for x in base] for f in factors]
-    ctx.label("points=%d" % len(factors), "G_per_point" if isinstance(p["G"], list) else "G_uniform")
-    rb = assess(p, None, multi=multi)
+    ctx.label("points=%d" % len(factors), "G_per_point" if isinstance(p["G"], list) else "G_uniform", "node_ids=" + case.get("id_layout", "range"))
+    try:
+        rb = assess(p, None, multi=multi, node_ids=case.get("node_ids"))
+    except ValueError as e:
+        for j in range(len(factors)):
+            pj = dict(p)
+            if isinstance(p["G"], list):
+                pj["G"] = p["G"][j]
+            assess(pj, multi[j])          # every point can be assessed alone ...
+        raise Violation("the batch raises %s although every point is assessed alone without error (factors %r, node ids %r, base loads %r)" % (
+            str(e).replace("\n", " ")[:200], factors, case.get("node_ids"), base), bucket="batch:raises")
     any_finite = False
     for j, f in enumerate(factors):
         pj = dict(p)
@@ -311,7 +330,7 @@ def batch_sequence(case, ctx):
     any_finite = False
     for k, factors in enumerate((case["factors"], case["factors2"])):
         multi = [[f * x for x in base] for f in factors]
-        rb = assess(p, None, multi=multi)
+        rb = assess(p, None, multi=multi, node_ids=case.get("node_ids"))
         if k == 0:
             continue       # the first call only primes whatever state there may be
         for j, f in enumerate(factors):
